@@ -1607,6 +1607,12 @@ class GattServer(GattLayer):
                 self.att.read_response(
                     attr.value[:local_mtu - 1]
                 )
+            else:
+                # Any other attribute (secondary service, include definition):
+                # answer with its value
+                self.att.read_response(
+                    attr.payload()[:local_mtu - 1]
+                )
 
         except IndexError:
             self.error(
